@@ -21,6 +21,15 @@ CHECKS = {
  "C14": ("model_checking", "the C01 explicit-state exploration executed in three child processes per SOURCE_DATE_EPOCH with different owned wall clocks and a different start offset; per-transition volume digests compared",
          "Every history of the FAT explorer (depth 3 quick / 4 thorough, FAT12/16/32, reproducible=true) is executed in three separate processes whose injected clocks differ (by a year and a second; advancing at every call) and, in one, with the volume at 1 MiB; the SHA-256 of the volume's byte range must agree after every transition for each SOURCE_DATE_EPOCH in {0,1,315532799,1700000001}. Every table of the C02 domain with GUIDs given is written twice (identical bytes) and re-written after being read (no change).",
          "time.Now() is routed through the vtime seam by the build overlay, so a stray clock read shows deterministically", "DESIGN.md §3 C14"),
+ "C03": ("model_checking", "explicit-state BFS over operation histories (FAT12/16/32, ext4) with a write-range monitor on the device, incl. fill-to-ENOSPC letters; plus enumerated Finalize and Table.Write cases under the same monitor",
+         "Volumes are placed at start in {0, 512, 1 MiB, 4 GiB+512} with sizes that are not multiples of the cluster/block size; every WriteAt reaching the device during Create, every explored transition (depth 3/4, plus fill-small-files / fill-directories / 70%-writes letters that drive the volume to ENOSPC) is checked against [start,start+size); ISO9660/squashfs Finalize at four start offsets and every C02 table write are checked the same way (tables: only the MBR entry area/signature, GPT headers and entry arrays; boot code and partition data compared byte for byte).",
+         "memdev range monitor sees every write that reaches the medium; the call site comes from the first offending write's stack", "DESIGN.md §3 C03"),
+ "C04": ("model_checking", "explicit-state BFS over operation histories on the real ext4 code with a reference tree of files/directories/symlinks/attributes; live and re-opened views compared after every transition",
+         "Scenarios files / links / attrs from the empty volume and bigdir (directory longer than one block) / extents (two files with more than four interleaved extents each) / enospc from prepared states, on 1 KiB and 4 KiB block sizes, with and without metadata checksums and journal, at start 0 and 1 MiB; depth 3 quick / 4 thorough. Listings, contents (through the writing handle, a fresh handle and after re-opening from the bytes), link targets and every attribute an accepted call set must equal the reference; a panic anywhere is a violation.",
+         "attributes are observed through Stat; uuid randomness and the clock are owned so images are a function of the history", "DESIGN.md §3 C04"),
+ "C05": ("model_checking", "same explicit-state BFS as C04 with /usr/sbin/e2fsck -f -n and debugfs as oracle after Create and after every transition, plus a Create-parameter matrix each followed by a depth-2 exploration",
+         "After Create and after every explored transition (accepted or refused) the volume bytes are handed to e2fsck -f -n, which must exit 0, and every regular file is extracted with debugfs and compared with what was written. Create matrix: block size 1K/2K/4K x volume sizes single-group to multi-group x feature sets (64bit, flex_bg, sparse_super2 flag and SparseSuperVersion 2, resize inode, huge_file, dir_index, blocks-per-group, inode ratio/count) x journal x metadata_csum; e2fsck results are memoised by image digest.",
+         "e2fsprogs 1.47.0 defines 'clean'; exploration does not continue behind a state e2fsck rejects; three sparse_super2 Create configurations are listed as known findings", "DESIGN.md §3 C05"),
  "C02": ("exploration", "bounded-exhaustive enumeration of table inputs executed on the real Write/Read + independent on-disk parser",
          "Every table of a spelled-out finite cross product (entries, indices, spellings, geometries, names, attributes, types, disk sizes, sector sizes, PMBR, prior content) is written by the real code and compared via gpt.Read/mbr.Read, partition.Read, Disk.GetPartition and an independent UEFI-spec parser; exhaustive over that domain, says nothing outside it.",
          "memdev in-memory device; gptck (independent parser written from the UEFI spec) defines on-disk validity", "DESIGN.md §3 C02"),
